@@ -49,7 +49,7 @@ def cfg(init, invs, post=None, **kw):
     c = dict(Nums=tla_set(NUMS), Lens=tla_set(LENS), Nums3="{0}", Lens3="{0}", MaxStr=0, Alpha=tla_set(ALPHA), MaxAlpha=0,
              MaxWord=0, CtxA=CTXA, CtxB=CTXB, EmitStr=0, EmitAlpha=0)
     c.update(kw)
-    t = "INIT %s\nNEXT Next\nCHECK_DEADLOCK FALSE\n" % init + "".join("INVARIANT %s\n" % i for i in invs)
+    t = "INIT %s\nNEXT %s\nCHECK_DEADLOCK FALSE\n" % (init, init.replace("Init", "Next")) + "".join("INVARIANT %s\n" % i for i in invs)
     if post:
         t += "POSTCONDITION %s\n" % post
     return t + "CONSTANTS\n" + "".join("  %s = %s\n" % kv for kv in c.items())
